@@ -178,17 +178,20 @@ def _lp(s):
 # the invariant and the known-finding regions
 
 
-def _consistent():
+def _violation():
+    """'' if the file is self-consistent, else which clause fails:
+    'F' the stored proposal is not the one the checkpoint was weighted under,
+    'C' the stored configuration does not name the sampler that wrote it."""
     f = FILES.get(PATH)
     if not f or "checkpoint" not in f:
-        return True
+        return ""
     ck = pickle.loads(f["checkpoint"])
     if "flow" not in f or f["flow"] != ck["flow_tag"]:
-        return False
+        return "F"
     cfg = f.get("aspire_config")
     if not cfg or cfg.get("sampler_type") != "smc":
-        return False
-    return True
+        return "C"
+    return ""
 
 
 def _open_findings():
@@ -202,11 +205,13 @@ def _open_findings():
 OPEN = _open_findings()
 
 
-def _region(op, before, resumed=False):
+def _region(op, before, resumed, clause):
     """Which known-finding region a violation arising at `op` falls into.
 
-    D8a: a sampling call that found a /flow already in the file and left it
-         there although the instance's proposal had been refitted since.
+    D8a: a sampling call (any of the codes 3-8; on an instance returned by
+         resume_from_file every sampling call targets the file) that found a
+         /flow already in the file and left it there although the instance's
+         proposal had been refitted since.
     D8b: fit(path, overwrite=True) that replaced /flow while an older
          /checkpoint stayed in the file.
     D8c: sampling with a sampler that does not checkpoint (importance) on a
@@ -217,14 +222,17 @@ def _region(op, before, resumed=False):
          checkpoint written by a sampler other than the saved one sits next
          to a configuration that does not name it."""
     had_flow, had_ckpt = before
-    if resumed and op in (4, 5, 6, 8):
-        return "C14-D8d"
-    if op == 8 or (op in (4, 6, 7) and had_flow):
-        return "C14-D8a"
-    if op == 2 and had_ckpt:
-        return "C14-D8b"
-    if op == 3 and had_ckpt:
-        return "C14-D8c"
+    if clause == "C":
+        if resumed and op in (4, 5, 6, 8):
+            return "C14-D8d"
+        if op == 3 and had_ckpt:
+            return "C14-D8c"
+        return None
+    if clause == "F":
+        if op == 8 or (op in (3, 4, 5, 6, 7) and had_flow):
+            return "C14-D8a"
+        if op == 2 and had_ckpt:
+            return "C14-D8b"
     return None
 
 
@@ -271,8 +279,9 @@ def _drive(prog: List[int], exclude_known: bool) -> bool:
         before = ("flow" in f, "checkpoint" in f)
         resumed = hasattr(a, "_resume_sampler_config") or (getattr(a, "_checkpoint_defaults", None) or {}).get("save_config") is False
         a = _apply(a, op)
-        if not _consistent() or STATE["mixed_resume"]:
-            if exclude_known and _region(op, before, resumed) in OPEN:
+        clause = _violation() or ("M" if STATE["mixed_resume"] else "")
+        if clause:
+            if exclude_known and _region(op, before, resumed, clause) in OPEN:
                 return True
             return False
     return True
